@@ -295,6 +295,81 @@ func TestC17Enum(t *testing.T) {
 	})
 }
 
+// c17wCase: an arbitrary byte string decoded step by step and compared with an independent walker.
+type c17wCase struct {
+	Data kit.Hex `json:"data"`
+}
+
+func checkC17Walk(c c17wCase, _ *kit.Collector) kit.Result {
+	res := kit.Result{}
+	rest := append([]byte(nil), c.Data...)
+	packets := 0
+	for steps := 0; steps < 64 && len(rest) > 0; steps++ {
+		exp, n, verdict := walkRTP(rest)
+		p := jt1078.NewPacket()
+		remain, err := p.Decode(rest)
+		switch verdict {
+		case "ok":
+			if err != nil {
+				res.Err = kit.Fail("reference sees a complete packet (type %d) but Decode says %v", exp.DataType, err)
+				return res
+			}
+			if !bytes.Equal(p.Body, exp.Payload) || !bytes.Equal(remain, rest[n:]) || p.Seq != exp.Seq || uint8(p.DataType) != exp.DataType ||
+				(exp.HasTimestamp() && p.Timestamp != exp.Timestamp) || (exp.HasIntervals() && (p.LastIFrameInterval != exp.LastI || p.LastFrameInterval != exp.LastFrame)) {
+				res.Err = kit.Fail("decoded packet differs from the reference reading of %x", head(rest))
+				return res
+			}
+			packets++
+			rest = remain
+			continue
+		case "short_header":
+			if !errors.Is(err, jt1078.ErrHeaderLength2Short) {
+				res.Err = kit.Fail("want ErrHeaderLength2Short, got %v for %x", err, head(rest))
+			}
+		case "short_body":
+			if !errors.Is(err, jt1078.ErrBodyLength2Short) {
+				res.Err = kit.Fail("want ErrBodyLength2Short, got %v for %x", err, head(rest))
+			}
+		case "unqualified":
+			if !errors.Is(err, jt1078.ErrUnqualifiedData) {
+				res.Err = kit.Fail("want ErrUnqualifiedData, got %v for %x", err, head(rest))
+			}
+		}
+		res.Labels = append(res.Labels, "walk_"+verdict)
+		break
+	}
+	res.Labels = append(res.Labels, fmt.Sprintf("walk_packets_%s", bucketN(packets)))
+	res.NT = packets >= 1
+	return res
+}
+
+func genC17Walk(t *rapid.T) c17wCase {
+	var b []byte
+	n := rapid.IntRange(0, 4).Draw(t, "n")
+	for i := 0; i < n; i++ {
+		b = append(b, genRTP(t).ref().Bytes()...)
+	}
+	switch rapid.IntRange(0, 3).Draw(t, "mut") {
+	case 0:
+	case 1:
+		if len(b) > 0 {
+			b[rapid.IntRange(0, len(b)-1).Draw(t, "pos")] ^= 1 << rapid.IntRange(0, 7).Draw(t, "bit")
+		}
+	case 2:
+		if len(b) > 0 {
+			b = b[:rapid.IntRange(0, len(b)-1).Draw(t, "cut")]
+		}
+	default:
+		k := rapid.IntRange(0, 40).Draw(t, "junk")
+		b = append(b, rapid.SliceOfN(rapid.Byte(), k, k).Draw(t, "junkb")...)
+	}
+	return c17wCase{Data: b}
+}
+
+func TestC17Walk(t *testing.T) {
+	kit.Run(t, kit.Prop[c17wCase]{ID: "C17", Part: "TestC17Walk", Gen: genC17Walk, Check: checkC17Walk})
+}
+
 func FuzzC17(f *testing.F) {
 	kit.Quiet()
 	for dt := 0; dt < 6; dt++ {
@@ -302,38 +377,10 @@ func FuzzC17(f *testing.F) {
 		f.Add(append(p.ref().Bytes(), p.ref().Bytes()...))
 	}
 	f.Fuzz(func(t *testing.T, data []byte) {
-		// oracle: re-derive the packet sequence with an independent walker and compare step by step
-		rest := append([]byte(nil), data...)
-		for steps := 0; steps < 64 && len(rest) > 0; steps++ {
-			exp, n, verdict := walkRTP(rest)
-			p := jt1078.NewPacket()
-			remain, err := p.Decode(rest)
-			switch verdict {
-			case "ok":
-				if err != nil {
-					t.Fatalf("reference sees a complete packet (type %d) but Decode says %v", exp.DataType, err)
-				}
-				if !bytes.Equal(p.Body, exp.Payload) || !bytes.Equal(remain, rest[n:]) || p.Seq != exp.Seq || uint8(p.DataType) != exp.DataType ||
-					(exp.HasTimestamp() && p.Timestamp != exp.Timestamp) || (exp.HasIntervals() && (p.LastIFrameInterval != exp.LastI || p.LastFrameInterval != exp.LastFrame)) {
-					t.Fatalf("decoded packet differs from the reference reading of %x", head(rest))
-				}
-				rest = remain
-			case "short_header":
-				if !errors.Is(err, jt1078.ErrHeaderLength2Short) {
-					t.Fatalf("want ErrHeaderLength2Short, got %v for %x", err, head(rest))
-				}
-				return
-			case "short_body":
-				if !errors.Is(err, jt1078.ErrBodyLength2Short) {
-					t.Fatalf("want ErrBodyLength2Short, got %v for %x", err, head(rest))
-				}
-				return
-			case "unqualified":
-				if !errors.Is(err, jt1078.ErrUnqualifiedData) {
-					t.Fatalf("want ErrUnqualifiedData, got %v for %x", err, head(rest))
-				}
-				return
-			}
+		c := c17wCase{Data: append([]byte(nil), data...)}
+		if res := checkC17Walk(c, nil); res.Err != nil {
+			kit.FuzzReport("TestC17Walk", c, res.Err)
+			t.Fatalf("%v", res.Err)
 		}
 	})
 }
